@@ -79,6 +79,14 @@ func buildGo(g map[string]interface{}) (reflect.Value, error) {
 		return reflect.ValueOf(f), err
 	case "str":
 		return reflect.ValueOf(string(wireBytes(g["bytes"]))), nil
+	case "iface": // a non-nil interface{} holding a value: as a struct field its static type is interface{}
+		v, err := buildGo(g["v"].(map[string]interface{}))
+		if err != nil {
+			return v, err
+		}
+		out := reflect.New(ifaceType).Elem()
+		out.Set(v)
+		return out, nil
 	case "number":
 		return reflect.ValueOf(codec.Number(string(wireBytes(g["lit"])))), nil
 	case "marsh":
